@@ -90,6 +90,19 @@ class SourceToSourceImportBlockTransformation(SourceToSourceTransformationBase):
         return f"<SourceToSourceImportBlockTransformation {self.importset!r} @{hex(id(self))}>"
 
 
+def _last_lineno(block):
+    """
+    Return the number of the last line that ``block`` has text on.
+
+    A block that ends with a newline has its ``endpos`` at column 1 of the
+    following line, which belongs to whatever comes next.
+    """
+    endpos = block.endpos
+    if endpos.colno == 1 and endpos.lineno > block.startpos.lineno:
+        return endpos.lineno - 1
+    return endpos.lineno
+
+
 class LineNumberNotFoundError(Exception):
     pass
 
@@ -133,7 +146,7 @@ class SourceToSourceFileImportsTransformation(SourceToSourceTransformationBase):
         results = [
             b
             for b in self.import_blocks
-            if b.input.startpos.lineno <= lineno <= b.input.endpos.lineno]
+            if b.input.startpos.lineno <= lineno <= _last_lineno(b.input)]
         if len(results) == 0:
             raise LineNumberNotFoundError(lineno)
         if len(results) > 1:
